@@ -419,6 +419,7 @@ def main():
     ap.add_argument("--hashseed", type=int)
     ap.add_argument("--max-report", type=int, default=8)
     ap.add_argument("--digests", help="write per-run digests to this file")
+    ap.add_argument("--one", type=int, help="developer: execute run index N of --engine in-process and print it")
     # worker mode
     ap.add_argument("--worker", action="store_true")
     ap.add_argument("--engine")
@@ -440,6 +441,18 @@ def main():
         env = child_env(0)
         env["VERIF_CHILD"] = "1"
         sys.exit(subprocess.call([sys.executable, os.path.abspath(__file__)] + sys.argv[1:], env=env))
+    if args.one is not None:
+        tier = args.tier or "quick"
+        en = args.engine or existing_engines(args.property)[0]
+        engine = importlib.import_module(en)
+        seed = int(os.environ.get("VERIF_SEED", "0") or 0)
+        plan = engine.gen(core.make_rng(seed, en, args.one), tier, args.one)
+        print(json.dumps(plan, indent=1)[:6000])
+        res = engine.run(plan, tier)
+        for v in res.violations:
+            print("VIOL", v.cls, "\n    ", v.detail[:1500])
+        print("probes", res.probes, "faults", res.faults, "exec", res.executions, "digest", res.digest[:12])
+        sys.exit(0)
     sys.exit(check(args))
 
 
